@@ -820,7 +820,64 @@ def meta_C12(seed, tier, bins, n=None):
         if msgs:
             sc.no_minimise = True
             out.append((sc, ["C12 twin run (the eager twin feeds the whole input and drains): " + msgs[0]] + msgs[1:]))
-    META_COUNT["C12"] = len(sched)
+    # second twin: an event queued up front and a multi-line response (command list, LF-only input, constant
+    # answers).  Which machine gets the output first legitimately depends on the schedule, so the two
+    # producers' byte streams are compared separately: each must be the same under every schedule.
+    rng = random.Random(repr((seed, "C12-twin-evt")))
+    m = max(10, n // 3)
+    pairs = []
+    for k in range(m):
+        sc = Scenario("C12-twinevt-%d-%d" % (seed, k), cap=rng.choice([1, 2, 8]), buf=2 * rng.choice([48, 64, 100]),
+                      uns=rng.choice([-1, 48]), mutex=0)
+        sc.group()
+        a = sc.slot(1, b"\x05")
+        ncmd = rng.randint(1, 4)
+        for i in range(ncmd):
+            h = "".join(x for x in "wrxt" if rng.random() < 0.7) or "x"
+            sc.cmd(Cmd(b"+C%d" % i, None, h, [Var(1, a, 1)] if rng.random() < 0.5 else None))
+        sc.cmd(Cmd(b"#LS", None, "x", None))
+        sc.cmd(Cmd(b"+EV", None, "", [Var(1, a, 1, 0, b"v", 1)], group=-1))
+        nevt = 1 if sc.cap == 1 else rng.randint(1, 2)       # never more than the ring holds: acceptance must not depend on timing
+        inp = b"AT#LS\n" + rng.choice([b"", b"AT+C0\n"])
+        e = copy.copy(sc)
+        e.sid = sc.sid + "-eager"
+        hq = "hq " + ",".join(["7"] * 40)
+        trig = "trig %d 1" % (ncmd + 1)
+        e.ops = [hq] + [trig] * nevt + ["in " + hx(inp), "drain 20000 1 1"]
+        ops = [hq]
+        early = rng.random() < 0.3
+        if early:
+            ops += [trig] * nevt
+        pos = 0
+        while pos < len(inp):
+            kk = rng.randint(1, 4)
+            ops.append("in " + hx(inp[pos:pos + kk]))
+            pos += kk
+            for _ in range(rng.randint(0, 12)):
+                ops.append("svc %d %s" % (rng.random() < 0.7, _wpat(rng, 0.6)))
+        tail = ["svc 1 %s" % _wpat(rng, 0.5) for _ in range(rng.randint(20, 200))]
+        if not early:
+            # the events arrive while the response is being produced or sent
+            for _ in range(nevt):
+                tail.insert(rng.randrange(0, min(len(tail), 60)), trig)
+        ops += tail
+        ops.append("drain 20000 1 1")
+        sc.ops = ops
+        pairs.append((sc, e))
+    tr = lib.run_impl([x for p in pairs for x in p], bins)
+    for sc, e in pairs:
+        a, b = oracles.An(sc, tr[sc.sid]), oracles.An(e, tr[e.sid])
+        if a.tr.abort or b.tr.abort or not (a.drained_ok() and b.drained_ok()):
+            continue
+        msgs = []
+        for f, nm in (("c", "command"), ("u", "unsolicited")):
+            if a.outbytes(f) != b.outbytes(f):
+                msgs.append("output of the %s machine under the schedule %r differs from its output under the eager schedule %r"
+                            % (nm, a.outbytes(f)[:200], b.outbytes(f)[:200]))
+        if msgs:
+            sc.no_minimise = True
+            out.append((sc, ["C12 twin run with a queued event (each producer's own byte stream must not depend on the schedule): " + msgs[0]] + msgs[1:]))
+    META_COUNT["C12"] = len(sched) + len(pairs)
     return out
 
 
